@@ -276,7 +276,7 @@ impl Property for C09 {
     }
     fn cases(&self, tier: Tier) -> u64 {
         match tier {
-            Tier::Quick => 30_000,
+            Tier::Quick => 100_000,
             Tier::Thorough => 1_000_000,
         }
     }
